@@ -136,8 +136,9 @@ BUILTIN_EXC = {
     'SyntaxError': ['Exception'], 'MemoryError': ['Exception'],
     # third-party exception lattices the loaders mention (documented bases)
     'JSONDecodeError': ['ValueError'], 'YAMLError': ['Exception'], 'ExpatError': ['Exception'],
-    'ParseError': ['SyntaxError'], 'InvalidFileException': ['ValueError'], 'ScannerError': ['YAMLError'],
-    'ParserError': ['YAMLError'], 'UnpicklingError': ['Exception'], 'PickleError': ['Exception'],
+    'ParseError': ['SyntaxError'], 'InvalidFileException': ['ValueError'], 'ScannerError': ['MarkedYAMLError'],
+    'ParserError': ['MarkedYAMLError'], 'ReaderError': ['YAMLError'], 'MarkedYAMLError': ['YAMLError'],
+    'ComposerError': ['MarkedYAMLError'], 'ConstructorError': ['MarkedYAMLError'], 'UnpicklingError': ['Exception'], 'PickleError': ['Exception'],
     'Error': ['Exception'],
 }
 
